@@ -177,16 +177,38 @@ class HostsMerge(Harness):
 
     def finding_key(self, v): return f"C12 hosts {v.get('tag')}"
 
+    def replay(self, world, v):
+        m = v.get('model') or {}
+        def mk(tag):
+            L = ['{ let mut h = Hosts::new();']
+            for i in range(m.get(tag + '4', 0)): L.append('h.v4.insert(DomainName::from_dotted_string("%s.").unwrap(), std::net::Ipv4Addr::new(10, 0, 0, %d));' % (chr(m.get(f'{tag}4n{i}', 0x61)), m.get(f'{tag}4a{i}', 0)))
+            for i in range(m.get(tag + '6', 0)): L.append('h.v6.insert(DomainName::from_dotted_string("%s.").unwrap(), std::net::Ipv6Addr::new(0xfd00, 0, 0, 0, 0, 0, 0, %d));' % (chr(m.get(f'{tag}6n{i}', 0x61)), m.get(f'{tag}6a{i}', 0)))
+            return ' '.join(L) + ' h }'
+        src = '''use super::*;
+#[test]
+fn replay() {
+    let a: Hosts = %s;
+    let b: Hosts = %s;
+    let mut merged = a.clone(); merged.merge(b.clone());
+    let mut want = a.clone();
+    for (n, x) in &b.v4 { want.v4.insert(n.clone(), *x); }
+    for (n, x) in &b.v6 { want.v6.insert(n.clone(), *x); }
+    assert!(merged == want, "VERIF-VIOLATED merged hosts {:?}, later-file-wins union is {:?}", merged, want);
+}
+''' % (mk('a'), mk('b'))
+        return run_replay(world, 'C12', self.name, src, HT_RS, {'model': m})
+
 
 def harnesses(world, tier, seed):
     q = tier == 'quick'
     hs = [
-        ZoneMerge(name='merge-2files', nrec=(1, 1) if q else (2, 1), maxdepth=1, qdepth=2, types=('A', 'CNAME'),
-                  bounds={'apex': 'z.', 'files': '2 zones for the same apex, each with or without SOA (minimum symbolic), ' + ('1 record each' if q else '2 + 1 records'),
-                          'records': 'ordinary or wildcard, owner depth 0..1 with labels symbolic over {a,b}, A or CNAME, symbolic TTL/data', 'query': 'depth 0..2 over {a,b,c}; qtype A, ANY, SOA'},
+        ZoneMerge(name='merge-2files', nrec=(1, 1), maxdepth=1 if q else 2, qdepth=2 if q else 3, types=('A', 'CNAME') if q else ('A', 'CNAME', 'NS'),
+                  bounds={'apex': 'z.', 'files': '2 zones for the same apex, each with or without SOA (minimum symbolic), 1 record each',
+                          'records': 'ordinary or wildcard, owner depth 0..%d with labels symbolic over {a,b}, %s, symbolic TTL/data' % ((1, 'A or CNAME') if q else (2, 'A, CNAME or NS')), 'query': 'depth 0..%d over {a,b,c}; qtype A, ANY, SOA' % (2 if q else 3)},
                   expected_classes=('answer', 'answer-wild', 'cname', 'nameerror')),
         HostsMerge(name='hosts-merge', bounds={'files': 2, 'mappings each': 'v4 0..2, v6 0..1', 'names': '1-label symbolic over {a,b}', 'addresses': 'symbolic'}, expected_classes=('merged',)),
     ]
     if not q:
+        hs.append(ZoneMerge(name='merge-2plus1', nrec=(2, 1), maxdepth=1, qdepth=1, types=('A',), qtypes=(1, 255), bounds={'files': '2 zones, 2 + 1 A records (ordinary or wildcard, owner depth 0..1)', 'query': 'depth 0..1; A, ANY'}, expected_classes=('answer', 'answer-wild')))
         hs.append(ZoneMerge(name='merge-3files', nrec=(1, 1, 1), maxdepth=1, qdepth=1, types=('A',), bounds={'files': '3 zones, 1 A record each (ordinary or wildcard)', 'query': 'depth 0..1'}, expected_classes=('answer',)))
-    return hs, (420 if q else 2700), None
+    return hs, (1500 if q else 5400), None
